@@ -377,6 +377,67 @@ fn check(c: &Case, obs: &mut Obs) -> Result<(), String> {
         if BM::of(&p)? != bm0.mul(&bbm) {
             return Err("Mat2 multiplication disagrees with the model".into());
         }
+        // the three other operator impls (owned / borrowed operands) are the same product
+        let want = bm0.mul(&bbm);
+        for (name, q) in [
+            ("Mat2 * Mat2", guarded("mul (owned, owned)", || m0.clone() * b.clone())?),
+            ("&Mat2 * Mat2", guarded("mul (borrowed, owned)", || &m0 * b.clone())?),
+            ("Mat2 * &Mat2", guarded("mul (owned, borrowed)", || m0.clone() * &b)?),
+        ] {
+            if BM::of(&q)? != want {
+                return Err(format!("{name} disagrees with &Mat2 * &Mat2 and the model ({rows}x{cols} times {cols}x{})", c.bcols.max(1)));
+            }
+        }
+        // (AB)^T = B^T A^T on temporaries
+        if guarded("mul (owned, owned)", || b.transpose() * m0.transpose())? != p.transpose() {
+            return Err("(AB)^T != B^T A^T with owned operands".into());
+        }
+        // constructors and element access
+        {
+            let z = Mat2::zeros(rows, cols);
+            let o = Mat2::ones(rows, cols);
+            let f = Mat2::build(rows, cols, |i, j| bm0.rows[i] >> j & 1 == 1);
+            if f != m0 {
+                return Err("Mat2::build(f) differs from Mat2::new of the same entries".into());
+            }
+            for i in 0..rows {
+                for j in 0..cols {
+                    let bit = (bm0.rows[i] >> j & 1) as u8;
+                    if m0[(i, j)] != bit || m0[i][j] != bit || z[(i, j)] != 0 || o[(i, j)] != 1 {
+                        return Err(format!("element access [({i},{j})] / zeros / ones wrong"));
+                    }
+                }
+            }
+            let mut w = z.clone();
+            for i in 0..rows {
+                for j in 0..cols {
+                    if (i + j) % 2 == 0 {
+                        w[(i, j)] = m0[(i, j)];
+                    } else {
+                        w[i][j] = m0[i][j];
+                    }
+                }
+            }
+            if w != m0 {
+                return Err("writing every entry through IndexMut does not reproduce the matrix".into());
+            }
+            if Mat2::id(cols) != Mat2::build(cols, cols, |i, j| i == j) {
+                return Err("Mat2::id".into());
+            }
+            // m * e_j = column j
+            let j = (rows + cols) % cols;
+            let e = Mat2::unit_vector(cols, j);
+            let col = guarded("mul", || &m0 * e)?;
+            for i in 0..rows {
+                if col.num_cols() != 1 || col[(i, 0)] != m0[(i, j)] {
+                    return Err(format!("m * unit_vector({cols},{j}) is not column {j}"));
+                }
+            }
+            let ur: Vec<usize> = (0..rows).filter(|&i| bm0.rows[i].count_ones() == 1).collect();
+            if m0.unit_rows() != ur {
+                return Err(format!("unit_rows() = {:?}, rows with a single 1 are {ur:?}", m0.unit_rows()));
+            }
+        }
         // (AB)^T = B^T A^T
         let lhs = p.transpose();
         let rhs = guarded("mul", || &b.transpose() * &t)?;
@@ -551,7 +612,7 @@ pub fn def(ctx: &Ctx) -> PropertyDef {
     ];
     PropertyDef {
         id: "C17",
-        rule: "every matrix up to 3x4 exhaustively, and random matrices up to 24x24 (dense, sparse, low-rank products, duplicated sub-rows, 0 rows / 0 columns), each x every block size 1..cols x both reduction modes: returned rank == naive rank; result in (reduced) echelon form; same row space; recorded row operations replayed on the input give the result, g*m == m', and a second matrix passed as proxy is transformed identically; inverse() Some iff invertible and two-sided; nullspace() vectors annihilated, independent, cols-rank many; transpose involutive, (AB)^T = B^T A^T, associativity, stacking laws, RowOps/ColOps on matrices. Non-trivial = rank-deficient matrix with a pivot column not at a block boundary (per block size and mode).",
+        rule: "every matrix up to 3x4 exhaustively, and random matrices up to 24x24 (dense, sparse, low-rank products, duplicated sub-rows, 0 rows / 0 columns), each x every block size 1..cols x both reduction modes: returned rank == naive rank; result in (reduced) echelon form; same row space; recorded row operations replayed on the input give the result, g*m == m', and a second matrix passed as proxy is transformed identically; inverse() Some iff invertible and two-sided; nullspace() vectors annihilated, independent, cols-rank many; transpose involutive, (AB)^T = B^T A^T, associativity, all four operator impls of * (owned / borrowed operands), constructors (new, build, zeros, ones, id, unit_vector), Index / IndexMut, unit_rows, stacking laws, RowOps/ColOps on matrices. Non-trivial = rank-deficient matrix with a pivot column not at a block boundary (per block size and mode).",
         assumptions: vec!["naive bit-row F2 model written for the harness"],
         sections,
     }
